@@ -22,7 +22,7 @@ var c15NameSets = [][][2]string{ // (module, item stem) of the modules of one pr
 	{{"a", "f"}, {"A", "F"}},
 }
 
-var c15NameKinds = []string{"functions", "globals", "functions-reading-their-globals", "functions-writing-their-globals"}
+var c15NameKinds = []string{"functions", "globals", "functions-reading-their-globals", "functions-writing-their-globals", "private-helpers-called-inside-their-modules", "helpers-used-as-values-and-in-try"}
 
 func c15F7Count() int { return len(c15NameSets) * len(c15NameKinds) * 2 }
 
@@ -62,6 +62,18 @@ func c15F7(idx int, r *Result) {
 			lib = fmt.Sprintf("let own_%d = \"own of %s\";\npub fn %s() -> str { own_%d }\n", i, tag, item, i)
 			body = append(body, fmt.Sprintf("    println(%s());", item))
 			want.WriteString("own of " + tag + "\n")
+		case "private-helpers-called-inside-their-modules":
+			// the colliding name is a private function every module calls itself; main enters through
+			// a public function of a name of its own
+			lib = fmt.Sprintf("fn %s() -> str { \"%s\" }\npub fn enter%d() -> str { %s() + \"!\" }\n", item, tag, i, item)
+			item = fmt.Sprintf("enter%d", i)
+			body = append(body, fmt.Sprintf("    println(%s());", item))
+			want.WriteString(tag + "!\n")
+		case "helpers-used-as-values-and-in-try":
+			lib = fmt.Sprintf("fn %s() -> str { try { \"%s\" } catch e { \"never\" } }\npub fn enter%d() -> str { let h = %s; h() + \"?\" }\n", item, tag, i, item)
+			item = fmt.Sprintf("enter%d", i)
+			body = append(body, fmt.Sprintf("    println(%s());", item))
+			want.WriteString(tag + "?\n")
 		case "functions-writing-their-globals":
 			lib = fmt.Sprintf("let count_%d = %d;\npub fn %s() -> int { count_%d += 1; count_%d }\n", i, 100*(i+1), item, i, i)
 			body = append(body, fmt.Sprintf("    println(%s());\n    println(%s());", item, item))
